@@ -380,7 +380,11 @@ impl Local {
 
     pub(crate) fn schedule_collection(&self) {
         self.must_collect.set(true);
-        if self.collecting.get() {
+        // Re-pinning moves this participant's announcement forward. That is only sound while no
+        // guard other than the one being dropped is alive: a destructor that runs during the
+        // collection may hold a guard of its own (and flush, or overflow the bag, under it), and
+        // what it loaded under that guard must not be reclaimed before the guard is dropped.
+        if self.collecting.get() && self.guard_count.get() == 1 {
             self.repin_without_collect();
         }
     }
